@@ -1,5 +1,6 @@
 (* Server/ServerProofs.v -- lemmas connecting Server/ServerModel.v with Server/ServerSpec.v
    (property C09). *)
+From Coq Require Import PeanoNat.
 From RV Require Import Base.Prelude Base.Cursor Name.NameModel Wire.WireTypes Wire.WireModel
      Wire.WireDecodeProofs Zone.ZoneModel Resolver.LocalModel Server.ServerModel Server.ServerSpec.
 
@@ -299,3 +300,528 @@ Section Srv.
     unfold triage in Hout. rewrite Hqs in Hout. exact Hout.
   Qed.
 End Srv.
+
+(* ------------------------------------------------------------------ *)
+(* framing: send_udp_bytes_to, send_tcp_bytes                          *)
+(* ------------------------------------------------------------------ *)
+
+Lemma byte_sweep (P : N -> bool) :
+  forallb P (map N.of_nat (seq 0 256)) = true -> forall c, c < 256 -> P c = true.
+Proof.
+  intros H c Hc. rewrite forallb_forall in H. apply H.
+  rewrite <- (N2Nat.id c). apply in_map. apply in_seq. lia.
+Qed.
+
+Lemma tc_set_facts c : c < 256 ->
+  N.testbit (N.lor c TC_SET) 1 = true /\ N.ldiff (N.lor c TC_SET) 2 = N.ldiff c 2.
+Proof.
+  intro Hc.
+  pose proof (byte_sweep (fun c => N.testbit (N.lor c TC_SET) 1 && (N.ldiff (N.lor c TC_SET) 2 =? N.ldiff c 2))) as S.
+  specialize (S eq_refl c Hc). cbv beta in S. apply andb_true_iff in S as [S1 S2].
+  apply N.eqb_eq in S2. auto.
+Qed.
+
+Lemma tc_clear_facts c : c < 256 ->
+  N.testbit (N.land c TC_CLEAR) 1 = false /\ N.ldiff (N.land c TC_CLEAR) 2 = N.ldiff c 2.
+Proof.
+  intro Hc.
+  pose proof (byte_sweep (fun c => negb (N.testbit (N.land c TC_CLEAR) 1) && (N.ldiff (N.land c TC_CLEAR) 2 =? N.ldiff c 2))) as S.
+  specialize (S eq_refl c Hc). cbv beta in S. apply andb_true_iff in S as [S1 S2].
+  apply N.eqb_eq in S2. apply negb_true_iff in S1. auto.
+Qed.
+
+Lemma bytes_ok_firstn n : forall l, bytes_ok l -> bytes_ok (firstn n l).
+Proof.
+  unfold bytes_ok. induction n as [|n IH]; intros [|x l] H; cbn [firstn]; auto.
+  inversion H; subst. constructor; auto.
+Qed.
+
+Lemma llen_firstn_le {A} k (l : list A) : llen (firstn (N.to_nat k) l) <= k.
+Proof. unfold llen. rewrite firstn_length. lia. Qed.
+
+Lemma llen_firstn_exact {A} k (l : list A) : k <= llen l -> llen (firstn (N.to_nat k) l) = k.
+Proof. unfold llen. rewrite firstn_length. lia. Qed.
+
+Lemma firstn_all_N {A} k (l : list A) : llen l <= k -> firstn (N.to_nat k) l = l.
+Proof. unfold llen. intro H. apply firstn_all2. lia. Qed.
+
+Lemma firstn_map_byte2 f n bs : (3 <= n)%nat -> firstn n (map_byte2 f bs) = map_byte2 f (firstn n bs).
+Proof.
+  intro Hn. destruct n as [|[|[|n]]]; try lia.
+  destruct bs as [|x [|y [|c t]]]; reflexivity.
+Qed.
+
+Lemma llen_map_byte2 f bs : llen (map_byte2 f bs) = llen bs.
+Proof. destruct bs as [|x [|y [|c t]]]; reflexivity. Qed.
+
+Lemma same_but_tc_map f l :
+  bytes_ok l -> (forall c, c < 256 -> N.ldiff (f c) 2 = N.ldiff c 2) -> same_but_tc (map_byte2 f l) l.
+Proof.
+  intros Hl Hf. destruct l as [|x [|y [|c t]]]; try (left; reflexivity).
+  right. exists x, y, (f c), c, t. repeat split. apply Hf.
+  unfold bytes_ok in Hl. inversion Hl as [|? ? _ H1]; subst. inversion H1 as [|? ? _ H2]; subst.
+  inversion H2; subst. assumption.
+Qed.
+
+Lemma tc_of_map_byte2 f l (v : bool) :
+  bytes_ok l -> 3 <= llen l -> (forall c, c < 256 -> N.testbit (f c) 1 = v) -> tc_of (map_byte2 f l) = v.
+Proof.
+  intros Hl H3 Hf. destruct l as [|x [|y [|c t]]]; try (unfold llen in H3; cbn [length] in H3; lia).
+  cbn [map_byte2 tc_of]. apply Hf.
+  unfold bytes_ok in Hl. inversion Hl as [|? ? _ H1]; subst. inversion H1 as [|? ? _ H2]; subst.
+  inversion H2; subst. assumption.
+Qed.
+
+(* ---- udp_512_tc_exact ---- *)
+Theorem udp_512_tc_exact bs :
+  bytes_ok bs -> 12 <= llen bs ->
+  exists out, send_udp_bytes_to bs = Ok out /\ udp_framed bs out.
+Proof.
+  intros Hb H12. unfold send_udp_bytes_to, MIN_MESSAGE, UDP_MAX.
+  rewrite (proj2 (N.ltb_ge _ _) H12).
+  destruct (512 <? llen bs) eqn:E.
+  - apply N.ltb_lt in E. eexists. split; [reflexivity|]. unfold udp_framed, set_tc.
+    rewrite firstn_map_byte2 by (change 3%nat with (N.to_nat 3); lia).
+    split; [rewrite llen_map_byte2; apply llen_firstn_le|]. split.
+    + apply same_but_tc_map; [apply bytes_ok_firstn; exact Hb|]. intros c Hc. apply tc_set_facts. exact Hc.
+    + split; [intros _; exact E|intros _].
+      apply tc_of_map_byte2; [apply bytes_ok_firstn; exact Hb| |intros c Hc; apply tc_set_facts; exact Hc].
+      rewrite llen_firstn_exact by lia. lia.
+  - apply N.ltb_ge in E. eexists. split; [reflexivity|]. unfold udp_framed, clear_tc.
+    split; [rewrite llen_map_byte2; exact E|]. split.
+    + rewrite (firstn_all_N 512 bs E).
+      apply same_but_tc_map; [exact Hb|]. intros c Hc. apply tc_clear_facts. exact Hc.
+    + rewrite (tc_of_map_byte2 _ bs false Hb); [|lia|intros c Hc; apply tc_clear_facts; exact Hc].
+      split; [discriminate|lia].
+Qed.
+
+Lemma u16_bytes_split v : v < 65536 ->
+  u16_hi v < 256 /\ u16_lo v < 256 /\ u16_hi v * 256 + u16_lo v = v.
+Proof.
+  intro Hv. unfold u16_hi, u16_lo.
+  assert (v / 256 < 256) by (apply N.div_lt_upper_bound; lia).
+  rewrite (N.mod_small (v / 256) 256) by assumption.
+  repeat split; [assumption|apply N.mod_lt; lia|].
+  rewrite (N.div_mod v 256) at 3 by lia. lia.
+Qed.
+
+(* ---- tcp_prefix_exact ---- *)
+Theorem tcp_prefix_exact bs :
+  bytes_ok bs -> 12 <= llen bs ->
+  exists out, send_tcp_bytes bs = Ok out /\ tcp_framed bs out.
+Proof.
+  intros Hb H12. unfold send_tcp_bytes, MIN_MESSAGE, TCP_MAX.
+  rewrite (proj2 (N.ltb_ge _ _) H12).
+  destruct (llen bs <? 65536) eqn:E.
+  - apply N.ltb_lt in E. eexists. split; [reflexivity|].
+    destruct (u16_bytes_split (llen bs) E) as (Hh & Hl & Hv).
+    unfold tcp_framed, u16_bytes. cbn [app].
+    exists (u16_hi (llen bs)), (u16_lo (llen bs)), (clear_tc bs). unfold clear_tc.
+    split; [reflexivity|]. split; [exact Hh|]. split; [exact Hl|].
+    split; [rewrite llen_map_byte2; exact Hv|]. split.
+    + rewrite (firstn_all_N 65535 bs) by lia.
+      apply same_but_tc_map; [exact Hb|]. intros c Hc. apply tc_clear_facts. exact Hc.
+    + rewrite (tc_of_map_byte2 _ bs false Hb); [|lia|intros c Hc; apply tc_clear_facts; exact Hc].
+      split; [discriminate|lia].
+  - apply N.ltb_ge in E. eexists. split; [reflexivity|].
+    unfold tcp_framed. change (u16_bytes 65535) with [255; 255]. cbn [app].
+    exists 255, 255, (firstn (N.to_nat 65535) (set_tc bs)). unfold set_tc.
+    rewrite firstn_map_byte2 by (change 3%nat with (N.to_nat 3); lia).
+    split; [reflexivity|]. split; [lia|]. split; [lia|].
+    split; [rewrite llen_map_byte2, llen_firstn_exact by lia; reflexivity|]. split.
+    + apply same_but_tc_map; [apply bytes_ok_firstn; exact Hb|]. intros c Hc. apply tc_set_facts. exact Hc.
+    + split; [intros _; lia|intros _].
+      apply tc_of_map_byte2; [apply bytes_ok_firstn; exact Hb| |intros c Hc; apply tc_set_facts; exact Hc].
+      rewrite llen_firstn_exact by lia. lia.
+Qed.
+
+(* ------------------------------------------------------------------ *)
+(* every serialised message has at least 12 octets: the panic!() sites  *)
+(* of util/net.rs are unreachable from the listen loops                 *)
+(* ------------------------------------------------------------------ *)
+
+Definition wl (b : wbuf) : nat := length (wb_rev b).
+
+Lemma wl_write_octets os b : wl (write_octets os b) = (length os + wl b)%nat.
+Proof. unfold wl, write_octets. cbn [wb_rev]. rewrite rev_append_rev, app_length, rev_length. reflexivity. Qed.
+
+Lemma wl_memoise n b : wl (memoise_name n b) = wl b.
+Proof.
+  unfold memoise_name.
+  destruct (negb (is_root n) && _); [|reflexivity].
+  destruct ((wb_len b <? 65536) && (wb_len b <? 16384)); reflexivity.
+Qed.
+
+Lemma wl_write_labels ls : forall b, (wl b <= wl (write_labels ls b))%nat.
+Proof.
+  unfold write_labels. induction ls as [|l ls IH]; intro b; cbn [fold_left]; [lia|].
+  eapply Nat.le_trans; [|apply IH]. unfold write_u8. rewrite !wl_write_octets. lia.
+Qed.
+
+Lemma wl_encode_name n c b : (wl b <= wl (encode_name n c b))%nat.
+Proof.
+  unfold encode_name.
+  destruct (if c then alookup dname_eqb n (wb_ptrs b) else None).
+  - unfold write_u16. rewrite wl_write_octets. lia.
+  - eapply Nat.le_trans; [|apply wl_write_labels]. rewrite wl_memoise. lia.
+Qed.
+
+Lemma wl_encode_question q b : (wl b <= wl (encode_question q b))%nat.
+Proof.
+  unfold encode_question, write_u16. rewrite !wl_write_octets.
+  pose proof (wl_encode_name (q_name q) true b). lia.
+Qed.
+
+Lemma wl_encode_questions qs : forall b, (wl b <= wl (fold_left (fun acc q => encode_question q acc) qs b))%nat.
+Proof.
+  induction qs as [|q qs IH]; intro b; cbn [fold_left]; [lia|].
+  eapply Nat.le_trans; [apply (wl_encode_question q b)|apply IH].
+Qed.
+
+Lemma wl_encode_rdata d b : (wl b <= wl (encode_rdata d b))%nat.
+Proof.
+  destruct d; cbn [encode_rdata]; unfold write_u32, write_u16; rewrite ?wl_write_octets;
+    repeat match goal with
+           | |- context[encode_name ?n ?c ?b] =>
+             lazymatch goal with
+             | _ : (wl b <= wl (encode_name n c b))%nat |- _ => fail
+             | _ => pose proof (wl_encode_name n c b)
+             end
+           end; unfold write_u16 in *; rewrite ?wl_write_octets in *; lia.
+Qed.
+
+Lemma wl_patch at_ v b : (wl b <= wl (patch_u16 at_ v b))%nat.
+Proof.
+  unfold wl, patch_u16. cbn [wb_rev]. rewrite app_length. cbn [length].
+  rewrite firstn_length, skipn_length. lia.
+Qed.
+
+Lemma wl_encode_rr r b b' : encode_rr r b = Ok b' -> (wl b <= wl b')%nat.
+Proof.
+  unfold encode_rr. cbv zeta.
+  match goal with |- (if ?c then _ else _) = _ -> _ => destruct c end; [|discriminate].
+  intro H. injection H as <-.
+  eapply Nat.le_trans; [|apply wl_patch].
+  eapply Nat.le_trans; [|apply wl_encode_rdata].
+  unfold write_u16, write_u32. rewrite !wl_write_octets.
+  pose proof (wl_encode_name (rr_name r) true b). lia.
+Qed.
+
+Lemma wl_encode_rrs rs : forall b b', encode_rrs rs b = Ok b' -> (wl b <= wl b')%nat.
+Proof.
+  induction rs as [|r rs IH]; intros b b' H; cbn [encode_rrs] in H.
+  - injection H as <-. lia.
+  - destruct (encode_rr r b) as [b1| | |] eqn:E; cbn [bind] in H; try discriminate.
+    apply wl_encode_rr in E. apply IH in H. lia.
+Qed.
+
+Theorem encode_at_least_12 m bs : encode m = Ok bs -> 12 <= llen bs.
+Proof.
+  unfold encode. intro H.
+  repeat match type of H with
+         | bind ?r _ = Ok _ =>
+           let E := fresh "E" in destruct r eqn:E; cbn [bind] in H; try discriminate
+         end.
+  cbv zeta in H.
+  repeat match type of H with
+         | bind ?r _ = Ok _ =>
+           let E := fresh "E" in destruct r eqn:E; cbn [bind] in H; try discriminate
+         end.
+  injection H as <-.
+  repeat match goal with E : encode_rrs _ _ = Ok _ |- _ => apply wl_encode_rrs in E end.
+  match goal with
+  | E : (wl (fold_left _ ?qs ?b0) <= _)%nat |- _ =>
+    pose proof (wl_encode_questions qs b0) as Hq;
+    assert (H0 : wl b0 = 12%nat)
+      by (unfold encode_header, write_u16, write_u8; rewrite !wl_write_octets; reflexivity)
+  end.
+  match goal with
+  | |- _ <= llen (wb_octets ?w) =>
+    unfold wb_octets, llen; rewrite rev_append_rev, app_nil_r, rev_length; fold (wl w)
+  end.
+  lia.
+Qed.
+
+(* the encoder itself has no panic site and no fuel *)
+Lemma encode_rr_fine r b : fine (encode_rr r b).
+Proof. unfold encode_rr. cbv zeta. match goal with |- fine (if ?c then _ else _) => destruct c end; [apply fine_ok|apply fine_err]. Qed.
+
+Lemma encode_rrs_fine rs : forall b, fine (encode_rrs rs b).
+Proof.
+  induction rs as [|r rs IH]; intro b; cbn [encode_rrs]; [apply fine_ok|].
+  apply fine_bind; [apply encode_rr_fine|]. intros b1 _. apply IH.
+Qed.
+
+Lemma usize_to_u16_fine n : fine (usize_to_u16 n).
+Proof. unfold usize_to_u16. destruct (n <? 65536); [apply fine_ok|apply fine_err]. Qed.
+
+Lemma encode_fine m : fine (encode m).
+Proof.
+  unfold encode.
+  repeat (apply fine_bind; [apply usize_to_u16_fine|]; intros ? _).
+  cbv zeta.
+  repeat (apply fine_bind; [apply encode_rrs_fine|]; intros ? _).
+  apply fine_ok.
+Qed.
+
+(* ---- framing_never_panics: a reply that serialises is always sent, framed as the spec says ---- *)
+Theorem framing_never_panics m bs :
+  encode m = Ok bs -> bytes_ok bs ->
+  (exists out, send_udp_bytes_to bs = Ok out /\ udp_framed bs out)
+  /\ (exists out, send_tcp_bytes bs = Ok out /\ tcp_framed bs out).
+Proof.
+  intros E Hb. pose proof (encode_at_least_12 _ _ E) as H12.
+  split; [apply udp_512_tc_exact|apply tcp_prefix_exact]; assumption.
+Qed.
+
+(* ------------------------------------------------------------------ *)
+(* read_tcp_bytes / listen_tcp_task on incomplete streams               *)
+(* ------------------------------------------------------------------ *)
+
+Section Tcp.
+  Variable authoritative_only : bool.
+  Variable resolve : bool -> question -> res rerror resolved.
+
+  (* ---- tcp_short_read: the peer announced more octets than it delivered before closing its
+     side: FORMERR carrying the first two delivered octets as id, silence if fewer than two
+     arrived; an incomplete length prefix: silence; while the peer stays connected and silent
+     nothing is sent ---- *)
+  Theorem tcp_short_read :
+    (forall hi lo rest, llen rest < hi * 256 + lo ->
+       tcp_reply_message authoritative_only resolve (hi :: lo :: rest) EndEof
+       = Ok (option_map make_format_error_response (wire_id rest))
+       /\ tcp_reply_message authoritative_only resolve (hi :: lo :: rest) EndIoError
+          = Ok (option_map make_format_error_response (wire_id rest))
+       /\ tcp_reply_message authoritative_only resolve (hi :: lo :: rest) EndOpen = Ok None)
+    /\ (forall stream e, llen stream < 2 -> tcp_reply_message authoritative_only resolve stream e = Ok None)
+    /\ (forall hi lo rest e, hi * 256 + lo <= llen rest ->
+          tcp_reply_message authoritative_only resolve (hi :: lo :: rest) e
+          = handle_raw_message authoritative_only resolve (firstn (N.to_nat (hi * 256 + lo)) rest)).
+  Proof.
+    split; [|split].
+    - intros hi lo rest Hs. unfold tcp_reply_message, read_tcp_bytes, u16_be. cbv beta iota zeta.
+      match goal with |- context[if ?c then _ else _] => destruct c eqn:E end;
+        [apply N.leb_le in E; unfold byte in *; lia|].
+      rewrite id_of_prefix_wire_id. cbn [tcp_error_id]. auto.
+    - intros stream e Hs. apply llen_lt2 in Hs. unfold tcp_reply_message, read_tcp_bytes.
+      destruct Hs as [->|(a & ->)]; destruct e; reflexivity.
+    - intros hi lo rest e Hs. unfold tcp_reply_message, read_tcp_bytes, u16_be. cbv beta iota zeta.
+      match goal with |- context[if ?c then _ else _] => destruct c eqn:E end;
+        [reflexivity|apply N.leb_gt in E; unfold byte in *; lia].
+  Qed.
+End Tcp.
+
+(* ------------------------------------------------------------------ *)
+(* the answer section: on the CNAME chain, except for the known referral *)
+(* ------------------------------------------------------------------ *)
+
+Definition lresult_rrs (l : lresult) : list rr :=
+  match l with
+  | LDone r => resolved_rrs r
+  | LPartial rrs => rrs
+  | LDelegation rrs _ _ => rrs
+  | LCname rrs _ => rrs
+  end.
+
+Section Referral.
+  Variable zs : zones.
+  Variable cget : dname -> N -> list rr.
+
+  (* resolve_local returns a Delegation only in one place: the zone lookup of the question
+     itself gave a delegation and the zone is authoritative *)
+  Lemma local_delegation_is_known f stack q rrs soa ns :
+    resolve_local zs cget f stack q = Ok (LDelegation rrs soa ns) -> Known_referral zs q.
+  Proof.
+    destruct f as [|f]; [discriminate|]. cbn [resolve_local]. cbv zeta. intro H.
+    repeat match goal with
+           | Hx : context[if ?c then _ else _] |- _ =>
+             destruct c eqn:?; try match goal with Hd : _ = _ |- _ => discriminate Hd end
+           | Hx : context[match ?x with _ => _ end] |- _ =>
+             destruct x eqn:?; try match goal with Hd : _ = _ |- _ => discriminate Hd end
+           end;
+      subst; try match goal with Hd : _ = _ |- _ => discriminate Hd end;
+      unfold Known_referral; eauto 10.
+  Qed.
+
+  (* the chain property of the local resolver (C10), for every result but the delegation *)
+  Hypothesis local_chain_ok : forall q l,
+      resolve_local zs cget LOCAL_FUEL [] q = Ok l ->
+      (forall a b c, l <> LDelegation a b c) ->
+      answers_on_chain q (lresult_rrs l).
+  Hypothesis local_returns : forall q,
+      resolve_authoritative_only zs cget q <> Panic /\ resolve_authoritative_only zs cget q <> OutOfFuel.
+
+  Lemma answers_of_lresult l :
+    fst (fst (fst (spec_outcome (Ok (resolved_of_lresult l))))) = lresult_rrs l.
+  Proof.
+    destruct l as [[rrs s|s|rrs s]|rrs|rrs [s|] ns|rrs cq]; cbn; try reflexivity;
+      destruct rrs; try destruct s; reflexivity.
+  Qed.
+
+  (* ---- answers_on_chain_unless_referral (authoritative-only mode) ---- *)
+  Theorem answers_on_chain_unless_referral bs m q r :
+    query_of bs m -> h_opcode (m_header m) = OPCODE_Standard ->
+    m_questions m = [q] -> ~ must_refuse m ->
+    ~ Known_referral zs q ->
+    handle_raw_message true (fun _ => resolve_authoritative_only zs cget) bs = Ok (Some r) ->
+    answers_on_chain q (m_answers r).
+  Proof.
+    intros Hq Ho Hqs Hnr Hk H.
+    pose proof (sections_are_resolver_output true (fun _ => resolve_authoritative_only zs cget)
+                  (fun _ q => local_returns q) bs m q r Hq Ho Hqs Hnr H) as Hout.
+    cbv beta in Hout. unfold outcome_of in Hout.
+    assert (Ha : m_answers r = fst (fst (fst (spec_outcome (resolve_authoritative_only zs cget q)))))
+      by (rewrite <- Hout; reflexivity).
+    rewrite Ha. unfold resolve_authoritative_only.
+    destruct (resolve_local zs cget LOCAL_FUEL [] q) as [l|e| |] eqn:El;
+      try (cbn; apply Forall_nil).
+    rewrite answers_of_lresult. apply (local_chain_ok q l El).
+    intros a b c ->. apply Hk. eapply local_delegation_is_known. exact El.
+  Qed.
+End Referral.
+
+(* ------------------------------------------------------------------ *)
+(* witnesses (evaluated by vm_compute on the executable model)          *)
+(* ------------------------------------------------------------------ *)
+
+Module Witness.
+  Definition nm (ls : list label) : dname :=
+    match from_labels ls with Some n => n | None => root_domain end.
+  Definition L_example := [101;120;97;109;112;108;101].
+  Definition L_com := [99;111;109].
+  Definition example_com := nm [L_example; L_com; []].
+  Definition sub_example_com := nm [[115;117;98]; L_example; L_com; []].
+  Definition ns_sub_example_com := nm [[110;115]; [115;117;98]; L_example; L_com; []].
+  Definition www_sub_example_com := nm [[119;119;119]; [115;117;98]; L_example; L_com; []].
+  Definition big_example_com := nm [[98;105;103]; L_example; L_com; []].
+
+  Definition the_soa : soa :=
+    {| soa_mname := nm [[110;115;49]; L_example; L_com; []]; soa_rname := nm [[97;100;109;105;110]; L_example; L_com; []];
+       soa_serial := 1; soa_refresh := 3600; soa_retry := 600; soa_expire := 86400; soa_minimum := 300 |}.
+
+  Definition ins (z : zone) (name : dname) (ty : N) (d : rdata) : zone :=
+    match zone_insert false z name ty d 300 with Ok z' => z' | _ => z end.
+
+  (* 2^k copies of the octet 'x' *)
+  Fixpoint doubled (k : nat) (l : list byte) : list byte :=
+    match k with O => l | S k' => doubled k' (l ++ l) end.
+
+  (* zone example.com: sub.example.com is delegated *)
+  Definition zone_example : zone :=
+    ins (zone_new example_com (Some the_soa)) sub_example_com RT_NS (RD_Name ns_sub_example_com).
+  Definition zs : zones := zones_insert [] zone_example.
+  (* the same zone where big.example.com has a TXT record of 65536 octets *)
+  Definition zs_big : zones :=
+    zones_insert [] (ins zone_example big_example_com RT_TXT (RD_Octets (doubled 16 [120]))).
+  Definition cget : dname -> N -> list rr := fun _ _ => [].
+
+  Definition question_for (n : dname) (t : N) : question := {| q_name := n; q_type := t; q_class := RC_IN |}.
+  Definition query_bytes (n : dname) (t : N) : list byte :=
+    match encode (from_question 7 (question_for n t)) with Ok bs => bs | _ => [] end.
+
+  Definition big_query : list byte := query_bytes big_example_com RT_TXT.
+  Definition big_dropped : bool :=
+    match handle_raw_message true (fun _ => resolve_authoritative_only zs_big cget) big_query with
+    | Ok (Some r) => match encode r with Err _ => true | _ => false end
+    | _ => false
+    end.
+End Witness.
+
+(* ---- the known finding F12 is real in the model: the reply to `www.sub.example.com A` has AA set
+   and an answer section that is not on the question's CNAME chain ---- *)
+Theorem known_referral_witness :
+  exists zs cget bs m q r,
+    query_of bs m /\ h_opcode (m_header m) = OPCODE_Standard /\ m_questions m = [q] /\ ~ must_refuse m
+    /\ Known_referral zs q
+    /\ handle_raw_message true (fun _ => resolve_authoritative_only zs cget) bs = Ok (Some r)
+    /\ h_aa (m_header r) = true
+    /\ ~ answers_on_chain q (m_answers r).
+Proof.
+  exists Witness.zs, Witness.cget, (Witness.query_bytes Witness.www_sub_example_com RT_A).
+  exists (from_question 7 (Witness.question_for Witness.www_sub_example_com RT_A)).
+  exists (Witness.question_for Witness.www_sub_example_com RT_A).
+  eexists.
+  split; [split; [vm_compute; reflexivity|reflexivity]|].
+  split; [reflexivity|]. split; [reflexivity|].
+  split.
+  { intros [(a & b & c & H)|(q & H & Hu)]; [discriminate H|].
+    injection H as <-. cbn in Hu. unfold KNOWN_QTYPES, KNOWN_QCLASSES in Hu. cbn [In] in Hu.
+    destruct Hu as [Hu|Hu]; apply Hu; auto 30. }
+  split.
+  { unfold Known_referral. do 3 eexists. split; vm_compute; reflexivity. }
+  split; [vm_compute; reflexivity|].
+  split; [reflexivity|].
+  cbn [m_answers]. intro H. inversion H as [|r0 l Hhd _]; subst. clear H.
+  cbn [rr_name Witness.question_for q_name] in Hhd.
+  (* oc_start would make the owner of the NS record the question name; oc_step needs a CNAME
+     record in the section *)
+  inversion Hhd;
+    try match goal with Hin : In _ _ |- _ => destruct Hin as [<-|[]] end;
+    match goal with
+    | Hty : rr_type _ = RT_CNAME |- _ => vm_compute in Hty; discriminate Hty
+    | Hd : _ = _ |- _ => vm_compute in Hd; discriminate Hd
+    end.
+Qed.
+
+(* ---- the premise `encode reply = Ok _` of the framing theorems can fail: the reply to
+   `big.example.com TXT` is built, but its RDATA has 65536 octets and to_octets refuses it
+   (the listen loops then log the error and send nothing: known finding) ---- *)
+Lemma big_dropped_true : Witness.big_dropped = true.
+Proof. vm_compute. reflexivity. Qed.
+
+Theorem unserialisable_reply_witness :
+  exists zs cget bs r e,
+    handle_raw_message true (fun _ => resolve_authoritative_only zs cget) bs = Ok (Some r)
+    /\ encode r = Err e
+    /\ serve_udp true (fun _ => resolve_authoritative_only zs cget) bs = Ok None
+    /\ serve_tcp true (fun _ => resolve_authoritative_only zs cget) (u16_bytes (llen bs) ++ bs) EndEof = Ok None.
+Proof.
+  exists Witness.zs_big, Witness.cget, Witness.big_query.
+  pose proof big_dropped_true as H. unfold Witness.big_dropped in H.
+  destruct (handle_raw_message true (fun _ => resolve_authoritative_only Witness.zs_big Witness.cget) Witness.big_query)
+    as [[r|]| | |] eqn:Eh; try discriminate H.
+  destruct (encode r) as [bs|e| |] eqn:Ee; try discriminate H.
+  exists r, e. split; [reflexivity|]. split; [exact Ee|].
+  split; vm_compute; reflexivity.
+Qed.
+
+(* ------------------------------------------------------------------ *)
+(* the hypotheses of the theorems above are satisfiable                 *)
+(* ------------------------------------------------------------------ *)
+
+Example ex_silent_short : silent_input [7].
+Proof. left. reflexivity. Qed.
+
+Example ex_silent_response :
+  exists bs m, bytes_ok bs /\ decode bs = Ok m /\ h_qr (m_header m) = true /\ silent_input bs.
+Proof.
+  exists [0;7;128;0;0;0;0;0;0;0;0;0]. eexists.
+  split; [repeat constructor|].
+  split; [vm_compute; reflexivity|]. split; [reflexivity|].
+  right. eexists. split; [vm_compute; reflexivity|reflexivity].
+Qed.
+
+Example ex_garbage : exists bs e, bytes_ok bs /\ decode bs = Err e /\ 2 <= llen bs.
+Proof.
+  exists [18;52;1], (HeaderTooShort, Some 4660). split; [repeat constructor|].
+  split; [vm_compute; reflexivity|]. vm_compute. discriminate.
+Qed.
+
+Example ex_notimp : exists bs m, query_of bs m /\ h_opcode (m_header m) <> OPCODE_Standard.
+Proof.
+  exists [0;7;16;0;0;0;0;0;0;0;0;0]. eexists.
+  split; [split; [vm_compute; reflexivity|reflexivity]|]. vm_compute. discriminate.
+Qed.
+
+Example ex_must_refuse :
+  must_refuse (from_question 1 {| q_name := root_domain; q_type := 99; q_class := RC_IN |}).
+Proof.
+  right. eexists. split; [reflexivity|]. left. cbn [q_type]. unfold KNOWN_QTYPES. cbn [In].
+  intro H. repeat (destruct H as [H|H]; [discriminate H|]). exact H.
+Qed.
+
+Example ex_udp_cut : exists bs, bytes_ok bs /\ 12 <= llen bs /\ 512 < llen bs.
+Proof.
+  exists (repeat 0 600). split; [apply Forall_forall; intros x Hx; apply repeat_spec in Hx; subst; reflexivity|].
+  unfold llen. rewrite repeat_length. split; lia.
+Qed.
